@@ -158,6 +158,9 @@ def major_instances():
         Instance({k: pool[k] for k in ("1", "2", "4")}, {"1": 4}, {A1: 15, MM(100, "_"): 55, A2: 40, MM(200, "_"): 30}, single={100: 17.5, 200: 17.5}),
         # one copy of one configuration, nothing observed
         Instance({"1": pool["1"]}, {"1": 1}, {}),
+        # an allele for every subset of three variants, three copies, a wide gap: 41 combinations within (1 + 7) x best, five of them tied for best
+        Instance({"1": ("1", []), "2": ("1", [A1]), "31": ("1", [A2]), "10": ("1", [A3]), "4": ("1", [A1, A2]), "32": ("1", [A1, A3]), "33": ("1", [A2, A3]),
+                  "34": ("1", [A1, A2, A3])}, {"1": 3}, {A1: 12, A2: 9, A3: 11, MM(100, "_"): 19, MM(200, "_"): 21, MM(300, "_"): 20}, gaps=(0.0, 7.0)),
     ]
 
     def random_instance():
@@ -244,7 +247,7 @@ def r9(repo, res):
             k_, a_, b_ = diff[0]
             bad.setdefault("score", f"{tag}: combination {k_[0]} with novel {[str(m) for m in k_[1]]} is scored {a_:.6f}; its fit error is {b_:.6f}")
         # the report at the documented gaps
-        for gap in (0.0, 0.1, 0.5):
+        for gap in inst.gaps:
             try:
                 kind, rows = fold_solve_major(repo, inst, gap, wrapper)
             except Unfoldable as e:
